@@ -304,7 +304,7 @@ class PseudoNetCDFMaskedVariable(PseudoNetCDFVariable, np.ma.MaskedArray):
 
         """
         if 'values' in kwds.keys():
-            result = kwds.pop('values')
+            result = np.ma.asanyarray(kwds.pop('values'))
         else:
             shape = []
             for d in dimensions:
